@@ -26,7 +26,7 @@ PROPERTY = 'C12'
 TECHNIQUE = 'symbolic execution of the real cost code + real autograd on z3-real architectural parameters and weights: free-variable check, finiteness, sign of symbolic gradients and per-coordinate monotonicity as unsat queries'
 FUNCTIONS_ENCODED = ['PIT/SuperNet/MPS/ODiMO_MPS.get_cost/_get_single_cost', 'PIT*.get_modified_vars/out_features_eff/k_eff', 'PITBinarizer.forward/backward', 'SuperNetCombiner.get_cost', 'MPSConv2d/MPSLinear.get_cost',
                      'STEArgmax.backward', 'odimo_mps_latency_reduction', 'params/ops/params_no_bias/ops_no_bias/gap8_latency/params_bit/ops_bit/diana_latency functions', 'PITFeaturesMasker/TimestepMasker/DilationMasker.theta']
-BOUNDS = {'quick': 'PIT: T1(K=3,4), A1, D2 (+gap8), L1 x {params, ops, no-bias} continuous; masker monotonicity K=1..9; SuperNet S(3,mix); MPS tiny net x {params_bit, ops_bit}; ODiMO_MPS defaults (w in {2,8}, a=8) evaluation + gradient finiteness',
+BOUNDS = {'quick': 'PIT: T1(K=3,4), A1, D2 (+gap8), L1 x {params, ops, no-bias} continuous; masker monotonicity K=1..9; SuperNet S(3,mix); MPS tiny net x {params_bit, ops_bit}; ODiMO_MPS defaults (w in {2,8}, a=8) evaluation + gradient finiteness; MPS per-channel search with the 0-bit option under hard sampling (every selection incl. a fully pruned layer: finite cost and gradients)',
           'thorough': 'PIT: T1 K=1..9, T2, K1, R2 ... ; MPS with mpic and ne16 (a=8); SuperNet 2 blocks'}
 OUTSIDE = ['magnitude of gradients in float32', 'GateSTE smooth-step gradient value (sign only)', 'discrete-cost monotonicity is composed from the per-masker bit monotonicity proved here and the monotonicity of the cost functions in the counts (C16)']
 ASSUMPTIONS = ['mask parameters >= 0 in gradient/monotonicity queries (justified by the symmetry obligation theta(m) == theta(-m))', 'softmax: arbitrary order-preserving map into the simplex']
